@@ -91,3 +91,19 @@ def compare(chk, rule, section, cur, what, floor, row_filter=None, fn_filter=Non
             eff, gs = json.loads(r)
             chk.add(Finding(rule, "%s::%s::%s::new::%s" % (rule, fn, eff, "|".join(gs)), "%s: new diagnostic/effect `%s` under %s (not in the reviewed table)" % (fn, eff, gs), where))
     chk.rule(rule, what, n, floor=floor)
+
+
+def agg_rows(prog, A, fid, adts):
+    """rows [build <Adt::Variant>, guards] for every construction of one of `adts` in function fid"""
+    b = prog.bodies.get(fid)
+    if b is None:
+        return []
+    S = A.summary(fid)
+    rows = []
+    for bi, blk in enumerate(b.blocks):
+        if blk["cleanup"]:
+            continue
+        for s in blk["s"]:
+            if s["k"] == "assign" and s["rv"]["r"] == "agg" and s["rv"].get("kind") == "adt" and s["rv"]["adt"] in adts:
+                rows.append(["build %s::%s" % (s["rv"]["adt"].split("::")[-1], s["rv"]["v"]), sorted(guards.guard_set(b, S, bi))])
+    return rows
